@@ -432,11 +432,40 @@ impl ArrayPartialEncoderTraits for ShardingPartialEncoder {
                     )?;
                 }
                 ShardingIndexLocation::End => {
-                    encoded_output.extend(encoded_array_index);
-                    self.output_handle.partial_encode(
-                        &[(offset_new_chunks, Cow::Owned(encoded_output))],
-                        options,
-                    )?;
+                    // The end of the remaining inner chunks
+                    let live_end = shard_index
+                        .iter()
+                        .tuples()
+                        .map(|(&offset, &size)| {
+                            if offset == u64::MAX && size == u64::MAX {
+                                0
+                            } else {
+                                offset + size
+                            }
+                        })
+                        .max()
+                        .expect("shards cannot be empty");
+                    if encoded_output.is_empty() && live_end < offset_new_chunks {
+                        // The last inner chunks were removed and nothing is appended: the index must follow the
+                        // remaining data directly (it is located from the end of the shard, and a later update
+                        // appends at the end of the remaining data), but a partial write never shortens the shard.
+                        // Rewrite the shard up to the end of the remaining data, followed by the index.
+                        let mut shard = self
+                            .input_handle
+                            .partial_decode(&[ByteRange::FromStart(0, Some(live_end))], options)?
+                            .map(|mut bytes| bytes.remove(0).into_owned())
+                            .unwrap_or_default();
+                        shard.extend(encoded_array_index);
+                        self.output_handle.erase()?;
+                        self.output_handle
+                            .partial_encode(&[(0, Cow::Owned(shard))], options)?;
+                    } else {
+                        encoded_output.extend(encoded_array_index);
+                        self.output_handle.partial_encode(
+                            &[(offset_new_chunks, Cow::Owned(encoded_output))],
+                            options,
+                        )?;
+                    }
                 }
             }
         }
